@@ -12,6 +12,9 @@ Definition merge_add (a b : value) : value :=
   let w := width_bits b in mkw w ((raw a + raw b) mod 2 ^ w).
 Definition merge_concat (a b : value) : value := VB (vbytes_of a ++ vbytes_of b).
 Definition merge_replace (a b : value) : value := b.
+(* keeps the smaller string (Go's < on strings is bytewise): the result can be shorter than the delta *)
+Definition merge_min (a b : value) : value :=
+  match bytes_cmp (vbytes_of a) (vbytes_of b) with Lt => VB (vbytes_of a) | _ => VB (vbytes_of b) end.
 (* order-sensitive numeric merge used to tell apply orders apart: v*3+d at the width *)
 Definition merge_affine (a b : value) : value :=
   let w := width_bits b in mkw w ((raw a * 3 + raw b) mod 2 ^ w).
